@@ -18,9 +18,9 @@ func ParamMatrix() *m.Design {
 	fld := func(n string, a *m.Attr, req bool) *m.Field { return &m.Field{Name: n, Attr: a, Required: req} }
 
 	var reqFields []*m.Field
-	h := &m.HTTPEndpoint{Routes: []m.Route{{Verb: "POST", Path: "/matrix/{p_same}/{pid}"}}}
-	reqFields = append(reqFields, fld("p_same", str(), true), fld("p_ren", str(), true))
-	h.Path = []m.Mapping{{Attr: "p_same"}, {Attr: "p_ren", Wire: "pid"}}
+	h := &m.HTTPEndpoint{Routes: []m.Route{{Verb: "POST", Path: "/matrix/{p_same}/{p_two}"}}}
+	reqFields = append(reqFields, fld("p_same", str(), true), fld("p_two", str(), true))
+	h.Path = []m.Mapping{{Attr: "p_same"}, {Attr: "p_two"}}
 	for _, loc := range []string{"q", "h", "c"} {
 		for _, kind := range []string{"req", "opt", "def"} {
 			for _, ren := range []bool{false, true} {
@@ -91,7 +91,21 @@ func ParamMatrix() *m.Design {
 		fld("list_req", arr(m.Prim(m.String)), true), fld("list_opt", arr(i64()), false), fld("hn_req", m.Prim(m.Float64), true), fld("hlist", arr(m.Prim(m.String)), false),
 	), HTTP: th}
 
+	// small methods: few parameters each, so that single-fault mutants reach every one of them quickly
+	small := func(name, verb string, h *m.HTTPEndpoint, fs ...*m.Field) *m.Method {
+		h.Routes = []m.Route{{Verb: verb, Path: "/" + name}}
+		return &m.Method{Name: name, Payload: obj(fs...), HTTP: h}
+	}
+	cookies := small("cookies", "GET", &m.HTTPEndpoint{Cookies: []m.Mapping{{Attr: "session", Wire: "SID"}}, Query: []m.Mapping{{Attr: "theme"}}},
+		fld("session", str(), true), fld("theme", str(), false))
+	optcookie := small("optcookie", "GET", &m.HTTPEndpoint{Cookies: []m.Mapping{{Attr: "theme", Wire: "ui-theme"}}},
+		fld("theme", &m.Attr{Type: &m.Type{Kind: m.String}, V: &m.Validation{Enum: []value.V{value.Str("dark"), value.Str("light")}}}, false))
+	headers := small("headers", "GET", &m.HTTPEndpoint{Headers: []m.Mapping{{Attr: "token", Wire: "X-Token"}, {Attr: "trace", Wire: "X-Trace"}}},
+		fld("token", str(), true), fld("trace", str(), false))
+	queries := small("queries", "GET", &m.HTTPEndpoint{Query: []m.Mapping{{Attr: "filter", Wire: "f"}, {Attr: "page"}}},
+		fld("filter", str(), true), fld("page", i64(), false))
+
 	return &m.Design{API: m.API{Name: "matrix", Title: "Parameter matrix"},
-		Services: []*m.Service{{Name: "matrix", HasHTTP: true, Methods: []*m.Method{meth, typed}}},
+		Services: []*m.Service{{Name: "matrix", HasHTTP: true, Methods: []*m.Method{meth, typed, cookies, optcookie, headers, queries}}},
 		Features: []string{"fixed-design:param-matrix", "cookie", "renamed-cookie", "response-cookie", "response-header", "required-default-optional-matrix", "typed-params"}}
 }
